@@ -57,7 +57,7 @@ def campaign(seed, seconds, workers_per_target=2, max_len=4096, asl_workers=6, k
             seeds = os.path.join(d, "seeds")
             asl_seeds(seeds, max_len)
             from . import fuzzcorpus
-            fuzzcorpus.unpack_to(os.path.join(d, "saved"), limit=None if seconds >= 300 else 1500)
+            fuzzcorpus.unpack_to(os.path.join(d, "saved"), limit=None if seconds >= 300 else 200)
             workers = asl_workers
         regress = os.path.join(FUZZ, "regress", tool)
         argv = [fuzzbuild.exe(tool), "-seed=%d" % (seed % (1 << 31)), "-max_total_time=%d" % seconds,
